@@ -29,14 +29,16 @@ from ..gen import inputs_schema
 from ..impl import scen, workers
 from ..sexp import Sym, json_sx, sx_json
 
+# streams of inputs_schema that are open finding classes; "kw_enum_default" (former F9c, fixed by a742038) stays a
+# generated stream as a regression case: a failure there is a VIOLATION.  The former F21 witnesses (null items under
+# a non-null list) are part of every "nulls"/"rand" value: a refusal there is a VIOLATION too.
+REGRESSION_STREAMS = ["kw_enum_default"]
 STREAM_CLASS = {
-    "kw_enum_default": "F9c-keyword-enum-default",
     "obj_enum_default": "F9a-object-default-with-enum",
     "list_obj_default": "F9b-list-default-with-object",
     "coerced_default": "F9d-default-relies-on-literal-coercion",
     "colliding_names": "F18-colliding-field-names",
 }
-F21 = "F21-nullable-item-in-nonnull-list"
 F18 = "F18-colliding-field-names"
 
 
@@ -112,8 +114,6 @@ def lit_relies_on_coercion(t, node):
 
 
 def default_class(t, node):
-    if lit_has_kw_enum(node):
-        return STREAM_CLASS["kw_enum_default"]
     if lit_has_obj_with_enum(node):
         return STREAM_CLASS["obj_enum_default"]
     if lit_has_list_with_obj(node):
@@ -258,27 +258,24 @@ def run_case(g, thorough: bool) -> Case:
             val_idx[(t.name, i)] = len(cmds)
             cmds.append([Sym("coerce"), ssx, tsx, json_sx(v)])
             cmds.append([Sym("validate"), ssx, csx, snake, tsx, json_sx(v)])
+            cmds.append([Sym("rename"), ssx, snake, tsx, json_sx(v)])
     res = model.batch("C06", cmds, jobs=1)
     for r in res:
         if model.is_error(r):
             cs.broken("model-command", repr(r))
             return cs
     m_module, m_guards = res[0], res[1]
-    guards = {row[0]: {"names_ok": row[1] == "t", "g21": {f[0]: f[1] == "t" for f in row[2]}} for row in m_guards}
+    guards = {row[0]: {"names_ok": row[1] == "t"} for row in m_guards}
     collide = {tn for tn, gd in guards.items() if not gd["names_ok"]}
     for tn, gd in guards.items():
         cs.d("guards", "names_collide" if not gd["names_ok"] else "names_ok")
-        for fn, ok in gd["g21"].items():
-            cs.d("guards", "g21_true" if ok else "g21_false(F21 class)")
 
     # ---------------- generation outcome
     model_syntax = any("SyntaxError" in json.dumps(res[i]) for i in fd_idx.values())
     if not g.ok:
         cs.c("evaluations")
         what = f"generation fails: {g.res.get('exc')}"
-        if model_syntax and cs.stream_class() == STREAM_CLASS["kw_enum_default"]:
-            cs.finding(STREAM_CLASS["kw_enum_default"], what, observed=g.res.get("exc"))
-        elif model_syntax:
+        if model_syntax:
             cs.violation(what + " (model predicts a syntax error in a default expression)", observed=g.res.get("exc"))
         else:
             cs.violation(what + " (model predicts a loadable module: K1 broken too)", observed=g.res.get("exc"))
@@ -294,12 +291,7 @@ def run_case(g, thorough: bool) -> Case:
     try:
         real = ci.canon_module(text, enums)
     except SyntaxError as exc:
-        real = None
-        if model_syntax and cs.stream_class() == STREAM_CLASS["kw_enum_default"]:
-            cs.finding(STREAM_CLASS["kw_enum_default"], f"generated input_types.py is not valid Python: {exc}",
-                       observed=str(exc))
-        else:
-            cs.violation(f"generated input_types.py is not valid Python: {exc}", observed=str(exc), file=text)
+        cs.violation(f"generated input_types.py is not valid Python: {exc}", observed=str(exc), file=text)
         return cs
     except ci.CanonError as exc:
         cs.broken("K1 canonicaliser cannot read input_types.py", f"{exc}\n{text[:1500]}")
@@ -331,11 +323,7 @@ def run_case(g, thorough: bool) -> Case:
                       "client_name": cfg.get("client_name", "Client")})
         if not ld.get("ok") or ld.get("incomplete"):
             what = f"generated package does not load: {ld.get('modules')} incomplete={ld.get('incomplete')}"
-            k = cs.stream_class()
-            if k == STREAM_CLASS["kw_enum_default"] and model_syntax:
-                cs.finding(k, what, observed=ld.get("modules"))
-            else:
-                cs.violation(what, observed=ld)
+            cs.violation(what, observed=ld)
             return cs
         # K1b: real pydantic fields vs the model's reading of the right-hand sides
         real_classes = drv.ask({"cmd": "classes"}).get("classes", {})
@@ -371,8 +359,17 @@ def run_case(g, thorough: bool) -> Case:
             for i, ((label, v), row) in enumerate(zip(vals, rows)):
                 base = val_idx[(tn, i)]
                 m_co, m_va = res[base], res[base + 1]
+                # K2d: the by-name form of the theorem (Model/Inputs.v rename) vs the key renaming done with the real
+                # classes' alias tables (only where names do not collide and the value is schema-valid)
+                if "renamed" in row and label in ("min", "full", "nulls", "rand") and \
+                        not (iv.reachable_inputs(t, v) & collide):
+                    if not eq_json(sx_json(res[base + 2]), row["renamed"]):
+                        cs.broken("K2 rename (by Python name) vs real classes",
+                                  f"{tn} {v!r}: model {sx_json(res[base + 2])!r} real {row['renamed']!r}")
                 cs.c("evaluations")
                 cs.d("value_kind", label)
+                if label in ("nulls", "rand") and iv.f21_null(t, v):
+                    cs.d("regression_cases", "null item under a non-null list (former F21)")
                 cs.nontrivial.add(hash((g.sc.seed, tn, json.dumps(v, sort_keys=True, default=str))))
                 # library coercion
                 try:
@@ -419,9 +416,7 @@ def run_case(g, thorough: bool) -> Case:
                         what = (f"schema-valid value refused when built by {how}: input {tn}, "
                                 f"{rr['exc'][0]}: {rr['exc'][1][:200]}")
                         kw = dict(input_type=tn, value=v, by=how, observed=rr["exc"], coerced=lib_v)
-                        if iv.f21_null(t, v) and rr["exc"][0] == "ValidationError" and "input_value=None" in rr["exc"][1]:
-                            cs.finding(F21, what, **kw)
-                        elif touches & collide:
+                        if touches & collide:
                             cs.finding(F18, what, **kw)
                         elif cs.stream_class() and cs.stream_class() != F18:
                             cs.finding(cs.stream_class(), what, **kw)
@@ -554,7 +549,7 @@ def run(ctx):
             scs.append(inputs_schema.make(base + i))
         except RuntimeError:
             run.dist("scenarios", "generator-gave-up")
-    for si, feat in enumerate(STREAM_CLASS):
+    for si, feat in enumerate(REGRESSION_STREAMS + list(STREAM_CLASS)):
         for i in range(n_feat):
             try:
                 scs.append(inputs_schema.make(base + 10000 * (si + 1) + i, (feat,)))
